@@ -10,7 +10,11 @@ use aelys_syntax::Source;
 use aelys_syntax::{Stmt, Token, TokenKind};
 use std::sync::Arc;
 
-const MAX_RECURSION_DEPTH: usize = 1000; // pathological nesting guard
+// Pathological nesting guard. Every recursive production (expression, declaration/block,
+// unary operator, else-if arm, type annotation) counts one level. A debug build spends
+// 30-50 KiB of native stack per nested parenthesis, so the bound has to stay well under
+// what an 8 MiB main thread (2 MiB test threads) can take.
+const MAX_RECURSION_DEPTH: usize = 100;
 
 pub struct Parser {
     tokens: Vec<Token>,
@@ -59,6 +63,14 @@ impl Parser {
 
     pub(crate) fn exit_recursion(&mut self) {
         self.recursion_depth = self.recursion_depth.saturating_sub(1);
+    }
+
+    /// Run one recursive production under the nesting guard.
+    pub(crate) fn nested<T>(&mut self, f: impl FnOnce(&mut Self) -> Result<T>) -> Result<T> {
+        self.enter_recursion()?;
+        let result = f(self);
+        self.exit_recursion();
+        result
     }
 
     fn consume(&mut self, kind: &TokenKind, expected: &str) -> Result<()> {
